@@ -1,8 +1,10 @@
 package rules
 
 import (
+	"fmt"
 	"go/constant"
 	"go/token"
+	"go/types"
 	"sort"
 	"strings"
 
@@ -64,138 +66,23 @@ func checkC12(c *Ctx) {
 	// ---- F10: descriptor stripping table == authenticated variables
 	want := c.authenticatedVarNames()
 	if fn := c.Fn("F10.strip", "efivarfs/testfs.(*TestFS).WriteVar"); fn != nil {
-		fname := name(fn)
-		var strip *ssa.Call // the descriptor decode
-		instrsOf(fn, func(i ssa.Instruction) {
-			if call, ok := i.(*ssa.Call); ok && ir.CallID(call) == M+"/efi/signature.EFIVariableAuthentication2.Unmarshal" {
-				strip = call
-			}
-		})
-		if strip == nil {
-			c.R.Undecf("F10.strip", fname, "descriptor-decode", c.Pos(fn.Pos()), "the descriptor stripping step must be identifiable", "no EFIVariableAuthentication2.Unmarshal call")
-		} else {
-			got := map[string]bool{}
-			vP := paramByNamed(fn, M+"/efivar.Efivar")
-			for _, ce := range ir.CondEdges(fn) {
-				cmp, ok := ce.Cond.(*ssa.BinOp)
-				if !ok || cmp.Op != token.EQL || !ce.Truth {
-					continue
-				}
-				k, isK := cmp.Y.(*ssa.Const)
-				x := cmp.X
-				if !isK {
-					k, isK = cmp.X.(*ssa.Const)
-					x = cmp.Y
-				}
-				if !isK || k.Value == nil || k.Value.Kind() != constant.String {
-					continue
-				}
-				xs := c.Slicer().Slice(x)
-				if vP == nil || !xs[vP] || !ir.HasField(xs, M+"/efivar.Efivar.Name") {
-					continue
-				}
-				// the true edge must lead to the strip call
-				seen, _ := ir.Reach(fn, fn.Blocks[ce.Edge.To], nil)
-				if seen[strip.Block().Index] {
-					got[constant.StringVal(k.Value)] = true
-				}
-			}
-			// every path to the strip call is through one of the name tests
-			cut := map[ir.Edge]bool{}
-			for _, ce := range ir.CondEdges(fn) {
-				if cmp, ok := ce.Cond.(*ssa.BinOp); ok && cmp.Op == token.EQL && ce.Truth {
-					if k, isK := cmp.Y.(*ssa.Const); isK && k.Value != nil && k.Value.Kind() == constant.String && got[constant.StringVal(k.Value)] {
-						cut[ce.Edge] = true
-					}
-				}
-			}
-			seen, _ := ir.Reach(fn, fn.Blocks[0], cut)
-			gs, ws := sortedSet(got), sortedSet(want)
-			ok := strings.Join(gs, ",") == strings.Join(ws, ",") && !seen[strip.Block().Index]
-			det := "stripped for names {" + strings.Join(gs, ",") + "}, authenticated variables defined in efivar: {" + strings.Join(ws, ",") + "}"
-			if seen[strip.Block().Index] {
-				det += "; the stripping step is reachable without a variable-name test"
-			}
-			c.R.Check(ok, "F10.strip", fname, "name-table", c.IPos(strip), "the descriptor is stripped exactly for the variables defined with TIME_BASED_AUTHENTICATED_WRITE_ACCESS, selected by name", det)
-			// the buffer that is decoded is a fresh local filled by t.Marshal
-			bufOK, bufDet := false, "the buffer handed to the descriptor decoder is not a local buffer filled by this call's Marshal"
-			if a, isA := ir.RootOf(strip.Call.Args[1]).(*ssa.Alloc); isA && ir.NamedTypeID(a.Type()) == "bytes.Buffer" {
-				marshalBefore := false
-				for _, r := range *a.Referrers() {
-					if call, ok := r.(ssa.CallInstruction); ok && call.Common().IsInvoke() && call.Common().Method.Name() == "Marshal" {
-						if call.Block() == strip.Block() || call.Block().Dominates(strip.Block()) {
-							marshalBefore = true
-						}
-					}
-				}
-				bufOK = marshalBefore
-				if !marshalBefore {
-					bufDet = "the local buffer is not filled by t.Marshal before the descriptor is decoded"
-				}
-			}
-			c.R.Check(bufOK, "F10.strip", fname, "scratch-buffer", c.IPos(strip), "the value is marshalled into a fresh local buffer before the descriptor is decoded from it", bufDet)
-			// the payload decode reads the same buffer, behind the success edge of the descriptor decode
-			var payload *ssa.Call
-			instrsOf(fn, func(i ssa.Instruction) {
-				if call, ok := i.(*ssa.Call); ok && ir.CallID(call) == M+"/efi/signature.SignatureDatabase.Unmarshal" {
-					payload = call
-				}
-			})
-			pOK, pDet := false, "no SignatureDatabase.Unmarshal of the remaining bytes found"
-			if payload != nil {
-				e, kept := errValue(strip)
-				same := ir.RootOf(payload.Call.Args[1]) == ir.RootOf(strip.Call.Args[1])
-				switch {
-				case !same:
-					pDet = "the payload is decoded from a different buffer than the descriptor"
-				case !kept || e == nil || !successDominates(fn, e, payload.Block()):
-					pDet = "the payload decode is not behind the success edge of the descriptor decode"
-				default:
-					pOK = true
-				}
-			}
-			c.R.Check(pOK, "F10.strip", fname, "payload-after-descriptor", c.IPos(strip), "the stored value is decoded from the bytes that follow the descriptor in the same buffer", pDet)
-		}
+		c.ruleStrip(fn, want)
 	}
 	// F11: fresh buffers on the read path (a cached/shared buffer is drained by the first reader)
 	c.ruleFreshRead()
 	c.R.Floor("F9.truncate", 1)
-	c.R.Floor("F10.strip", 3)
+	c.R.Floor("F10.strip", 1)
 	c.R.Floor("F11.fresh", 1)
 }
 
 func (c *Ctx) ruleFreshRead() {
-	for _, s := range []string{"efivarfs/fswrapper.(*FSWrapper).ParseEfivars"} {
-		fn := c.Fn("F11.fresh", s)
-		if fn == nil {
-			continue
-		}
-		fresh := true
-		for _, r := range ir.Returns(fn) {
-			if len(r.Results) < 2 || ir.IsNilConst(r.Results[1]) {
-				continue
-			}
-			if call, isC := r.Results[1].(*ssa.Call); !isC || ir.CallID(call) != "bytes.NewBuffer" {
-				fresh = false
-			}
-		}
-		c.R.Check(fresh, "F11.fresh", name(fn), "returned-buffer", c.Pos(fn.Pos()), "the returned value buffer is freshly constructed on every call", "a return hands out a buffer not constructed in this call")
+	if fn := c.Fn("F11.fresh", "efivarfs/fswrapper.(*FSWrapper).ParseEfivars"); fn != nil {
+		c.judgeFresh(fn, "the returned value buffer is freshly constructed on every call", "a buffer not constructed in this call is handed out")
 	}
 	for _, s := range []string{"efivarfs/fswrapper.(*FSWrapper).ReadEfivarsFile", "efivarfs/fswrapper.(*FSWrapper).ReadEfivarsWithGuid"} {
-		fn := c.Fn("F11.fresh", s)
-		if fn == nil {
-			continue
+		if fn := c.Fn("F11.fresh", s); fn != nil {
+			c.judgeFresh(fn, "the returned value buffer is the parser's freshly constructed buffer", "the buffer does not come from the parser's fresh result (a cached buffer is drained by the first Unmarshal)")
 		}
-		fresh, det := true, ""
-		for _, r := range ir.Returns(fn) {
-			if len(r.Results) < 2 || ir.IsNilConst(r.Results[1]) {
-				continue
-			}
-			if !c.freshBufferValue(fn, r, r.Results[1], 0) {
-				fresh, det = false, "return at "+c.IPos(r)+" hands out a buffer that does not come from the parser's fresh result (a cached buffer is drained by the first Unmarshal)"
-			}
-		}
-		c.R.Check(fresh, "F11.fresh", name(fn), "returned-buffer", c.Pos(fn.Pos()), "the returned value buffer is the parser's freshly constructed buffer", det)
 	}
 }
 
@@ -253,4 +140,248 @@ func (c *Ctx) authenticatedVarNames() map[string]bool {
 		}
 	}
 	return out
+}
+
+// stringSetPredicate: fn(p string) bool is true exactly for a finite set of
+// constant strings. Decided by walking fn's branches for each constant it
+// compares its parameter with, and for a value different from all of them.
+func (c *Ctx) stringSetPredicate(fn *ssa.Function) (map[string]bool, bool) {
+	if fn == nil || fn.Blocks == nil || len(fn.Params) != 1 || fn.Signature.Results().Len() != 1 {
+		return nil, false
+	}
+	p := fn.Params[0]
+	if b, ok := p.Type().Underlying().(*types.Basic); !ok || b.Kind() != types.String {
+		return nil, false
+	}
+	if b, ok := fn.Signature.Results().At(0).Type().Underlying().(*types.Basic); !ok || b.Kind() != types.Bool {
+		return nil, false
+	}
+	consts := map[string]bool{}
+	supported := true
+	instrsOf(fn, func(i ssa.Instruction) {
+		switch x := i.(type) {
+		case *ssa.BinOp:
+			k, isK := x.Y.(*ssa.Const)
+			v := x.X
+			if !isK {
+				k, isK = x.X.(*ssa.Const)
+				v = x.Y
+			}
+			if (x.Op == token.EQL || x.Op == token.NEQ) && isK && v == ssa.Value(p) && k.Value != nil && k.Value.Kind() == constant.String {
+				consts[constant.StringVal(k.Value)] = true
+				return
+			}
+			supported = false
+		case *ssa.If, *ssa.Jump, *ssa.Return, *ssa.Phi, *ssa.DebugRef:
+		default:
+			supported = false
+		}
+	})
+	if !supported || len(consts) == 0 {
+		return nil, false
+	}
+	// evaluate for a concrete choice of the parameter (other = "" with ok=false)
+	eval := func(val string, isOther bool) (bool, bool) {
+		var prev *ssa.BasicBlock
+		b := fn.Blocks[0]
+		var value func(v ssa.Value) (bool, bool)
+		value = func(v ssa.Value) (bool, bool) {
+			switch x := v.(type) {
+			case *ssa.Const:
+				if x.Value != nil && x.Value.Kind() == constant.Bool {
+					return constant.BoolVal(x.Value), true
+				}
+			case *ssa.BinOp:
+				k, isK := x.Y.(*ssa.Const)
+				if !isK {
+					k, _ = x.X.(*ssa.Const)
+				}
+				eq := !isOther && k != nil && constant.StringVal(k.Value) == val
+				if x.Op == token.NEQ {
+					return !eq, true
+				}
+				return eq, true
+			case *ssa.Phi:
+				for j, pr := range x.Block().Preds {
+					if pr == prev {
+						return value(x.Edges[j])
+					}
+				}
+			}
+			return false, false
+		}
+		for steps := 0; steps < 64; steps++ {
+			last := b.Instrs[len(b.Instrs)-1]
+			switch t := last.(type) {
+			case *ssa.Return:
+				return value(t.Results[0])
+			case *ssa.Jump:
+				prev, b = b, b.Succs[0]
+			case *ssa.If:
+				cv, ok := value(t.Cond)
+				if !ok {
+					return false, false
+				}
+				if cv {
+					prev, b = b, b.Succs[0]
+				} else {
+					prev, b = b, b.Succs[1]
+				}
+			default:
+				return false, false
+			}
+		}
+		return false, false
+	}
+	out := map[string]bool{}
+	for k := range consts {
+		r, ok := eval(k, false)
+		if !ok {
+			return nil, false
+		}
+		if r {
+			out[k] = true
+		}
+	}
+	if r, ok := eval("", true); !ok || r {
+		return nil, false // true for names outside the finite set
+	}
+	return out, true
+}
+
+// ruleStrip (F10): the test filesystem strips the authentication descriptor
+// exactly for the authenticated variables, selected by name.
+func (c *Ctx) ruleStrip(fn *ssa.Function, want map[string]bool) {
+	fname := name(fn)
+	dv := c.deepViewOf(fn, 3)
+	strips := dv.callsTo(M + "/efi/signature.EFIVariableAuthentication2.Unmarshal")
+	if len(strips) != 1 {
+		c.R.Undecf("F10.strip", fname, "descriptor-decode", c.Pos(fn.Pos()), "the descriptor stripping step must be identifiable", fmt.Sprintf("%d EFIVariableAuthentication2.Unmarshal calls in the view of WriteVar", len(strips)))
+		return
+	}
+	strip := strips[0].i.(*ssa.Call)
+	sfr := strips[0].fr
+	vP := paramByNamed(fn, M+"/efivar.Efivar")
+	fromName := func(v ssa.Value, fr *frame) bool {
+		sl := dv.sliceDeep(v, fr)
+		return vP != nil && sl[vP] && ir.HasField(sl, M+"/efivar.Efivar.Name")
+	}
+	// walk the chain of frames from the strip call up to the root: in each
+	// function the target (the strip call, or the call that leads to it) may be
+	// gated by name tests
+	got := map[string]bool{}
+	gated := false
+	var target ssa.Instruction = strip
+	for fr := sfr; fr != nil; fr = fr.parent {
+		f := fr.fn
+		if target.Parent() != f {
+			break
+		}
+		type gate struct {
+			edge  ir.Edge
+			names map[string]bool
+		}
+		var gates []gate
+		for _, ce := range ir.CondEdges(f) {
+			if !ce.Truth {
+				continue
+			}
+			switch x := ce.Cond.(type) {
+			case *ssa.BinOp:
+				if x.Op != token.EQL {
+					continue
+				}
+				k, isK := x.Y.(*ssa.Const)
+				v := x.X
+				if !isK {
+					k, isK = x.X.(*ssa.Const)
+					v = x.Y
+				}
+				if !isK || k.Value == nil || k.Value.Kind() != constant.String || !fromName(v, fr) {
+					continue
+				}
+				gates = append(gates, gate{ce.Edge, map[string]bool{constant.StringVal(k.Value): true}})
+			case *ssa.Call:
+				callee := ir.Callee(x)
+				if callee == nil || !c.P.InLib(callee) || len(x.Call.Args) != 1 || !fromName(x.Call.Args[0], fr) {
+					continue
+				}
+				if set, ok := c.stringSetPredicate(callee); ok {
+					gates = append(gates, gate{ce.Edge, set})
+				}
+			}
+		}
+		cut := map[ir.Edge]bool{}
+		local := map[string]bool{}
+		for _, g := range gates {
+			seen, _ := ir.Reach(f, f.Blocks[g.edge.To], nil)
+			if seen[target.Block().Index] {
+				cut[g.edge] = true
+				for n := range g.names {
+					local[n] = true
+				}
+			}
+		}
+		if len(cut) > 0 {
+			if seen, _ := ir.Reach(f, f.Blocks[0], cut); !seen[target.Block().Index] {
+				gated = true
+				for n := range local {
+					got[n] = true
+				}
+			}
+		}
+		if fr.site == nil {
+			break
+		}
+		target = fr.site
+	}
+	gs, ws := sortedSet(got), sortedSet(want)
+	ok := gated && strings.Join(gs, ",") == strings.Join(ws, ",")
+	det := "stripped for names {" + strings.Join(gs, ",") + "}, authenticated variables defined in efivar: {" + strings.Join(ws, ",") + "}"
+	if !gated {
+		det += "; the stripping step is reachable without a variable-name test"
+	}
+	c.R.Check(ok, "F10.strip", fname, "name-table", c.IPos(strip), "the descriptor is stripped exactly for the variables defined with TIME_BASED_AUTHENTICATED_WRITE_ACCESS, selected by name", det)
+	// the buffer that is decoded is a fresh local filled by Marshal of the caller's value
+	sf := sfr.fn
+	bufOK, bufDet := false, "the buffer handed to the descriptor decoder is not a local buffer filled by this call's Marshal"
+	bufObj := dv.objectOf(strip.Call.Args[1], sfr)
+	if a, isA := bufObj.v.(*ssa.Alloc); isA && ir.NamedTypeID(a.Type()) == "bytes.Buffer" {
+		marshalBefore := false
+		for _, di := range dv.order {
+			call, ok := di.i.(ssa.CallInstruction)
+			if !ok || !call.Common().IsInvoke() || call.Common().Method.Name() != "Marshal" || len(call.Common().Args) != 1 {
+				continue
+			}
+			if !dv.objectOf(call.Common().Args[0], di.fr).same(bufObj) {
+				continue
+			}
+			if di.fr == sfr && (call.Block() == strip.Block() && precedes(call, strip) || call.Block() != strip.Block() && call.Block().Dominates(strip.Block())) {
+				marshalBefore = true
+			} else if di.fr != sfr && di.seq < strips[0].seq {
+				marshalBefore = true
+			}
+		}
+		bufOK = marshalBefore
+		if !marshalBefore {
+			bufDet = "the local buffer is not filled by Marshal before the descriptor is decoded"
+		}
+	}
+	c.R.Check(bufOK, "F10.strip", fname, "scratch-buffer", c.IPos(strip), "the value is marshalled into a fresh local buffer before the descriptor is decoded from it", bufDet)
+	// the payload decode reads the same buffer, behind the success edge of the descriptor decode
+	pOK, pDet := false, "no SignatureDatabase.Unmarshal of the remaining bytes found"
+	for _, di := range dv.callsTo(M + "/efi/signature.SignatureDatabase.Unmarshal") {
+		payload := di.i.(*ssa.Call)
+		e, kept := errValue(strip)
+		same := dv.objectOf(payload.Call.Args[1], di.fr).same(bufObj)
+		switch {
+		case !same:
+			pDet = "the payload is decoded from a different buffer than the descriptor"
+		case di.fr != sfr || !kept || e == nil || !successDominates(sf, e, payload.Block()):
+			pDet = "the payload decode is not behind the success edge of the descriptor decode"
+		default:
+			pOK = true
+		}
+	}
+	c.R.Check(pOK, "F10.strip", fname, "payload-after-descriptor", c.IPos(strip), "the stored value is decoded from the bytes that follow the descriptor in the same buffer", pDet)
 }
